@@ -27,10 +27,30 @@ class MapMonitors:
             return
         self.check_map(sm.invert(), R.inverted(), nsize, dict(det, dir="inverted", shape="single-inverted:%s" % kind))
 
+    @staticmethod
+    def positions(size, triples=()):
+        """every position of a page-sized document; for a very long one (the size knob of the C08
+        mix) the positions around every range boundary, around powers of two (the recover encoding
+        packs index and offset into one number), both ends and a sparse sweep"""
+        if size <= 4000:
+            return range(size + 1)
+        ps = set(range(0, 41)) | set(range(size - 40, size + 1)) | set(range(0, size + 1, 997))
+        for (s, o, n) in triples:
+            for x in (s, s + o, s + n):
+                ps.update(range(x - 2, x + 3))
+            ps.update(s + k for k in (1, o // 2, o - 1) if o > 0)
+            for e in range(8, 22):
+                for d in (-1, 0, 1):
+                    ps.add(s + (1 << e) + d)
+        for e in range(8, 22):
+            for d in (-1, 0, 1):
+                ps.add((1 << e) + d)
+        return sorted(p for p in ps if 0 <= p <= size)
+
     def check_map(self, sm, R, size, det):
         v = self.violation
         prev = {-1: None, 1: None}
-        for p in range(size + 1):
+        for p in self.positions(size, R.t):
             res = {}
             for assoc in (-1, 1):
                 try:
@@ -116,7 +136,8 @@ class MapMonitors:
         v = self.violation
         if mirrored is None:
             mirrored = bool(RM.mirrors)
-        for p in range(size + 1):
+        big = [t for r in RM.maps for t in r.t] if size > 4000 else ()
+        for p in self.positions(size, big):
             for assoc in (-1, 1):
                 try:
                     a = M.map(p, assoc)
@@ -219,7 +240,7 @@ class MapMonitors:
             F.append_map(maps[k].invert(), k)
             RF.append_map(rmaps[k].inverted(), k)
         self.probes["C08.mirror_roundtrips"] += 1
-        for p in range(size0 + 1):
+        for p in self.positions(size0, [t for r in rmaps for t in r.t] if size0 > 4000 else ()):
             for assoc in (-1, 1):
                 got = F.map(p, assoc)
                 if got != p:
@@ -245,7 +266,7 @@ class MapMonitors:
         for k in range(n):
             B.append_map(maps[k], n - 1 - k)
             RB.append_map(rmaps[k], n - 1 - k)
-        for p in range(sizeN + 1):
+        for p in self.positions(sizeN, [t for r in rmaps for t in r.inverted().t] if sizeN > 4000 else ()):
             for assoc in (-1, 1):
                 got = B.map(p, assoc)
                 if got != p:
@@ -286,6 +307,28 @@ class MapMonitors:
 
     def on_maps_used(self, client, maps, rmaps):
         return
+
+    def c08_bigdoc(self, ev):
+        """size knob: one transaction on a very long document (a pasted chapter), so that ranges,
+        offsets into deleted content and recover values beyond 2**16 occur; judged like any other
+        history (single-map laws at the apply seam, mapping laws and mirror round trips here)"""
+        if "C08" not in self.on:
+            return "off"
+        import schemas
+
+        schema = schemas.get("basic")
+        n = int(ev["n"])
+        doc = schema.node("doc", None, [schema.node("paragraph", None, [schema.text("ab" * (n // 2))]),
+                                        schema.node("paragraph", None, [schema.text("tail")])])
+        tr = pt.Transform(doc)
+        a, b = int(ev["from"]), int(ev["to"])
+        tr.delete(max(1, a), min(n, b))
+        tr.replace_with(3, 3, schema.text("in"))
+        if ev.get("second"):
+            tr.delete(5, 5 + int(ev["second"]))
+        self.probes["C08.bigdoc_histories"] += 1
+        self.guard("C08", self.c08_transform, tr)
+        return "ok:%d" % len(tr.steps)
 
     # ------------------------------------------------------------------ transforms' own mappings
     def c08_transform(self, tr):
